@@ -108,8 +108,8 @@ def wrap_search(tier, seed, WORK, ROOT, REPO, GOENV):
         for ln, o in zip(ch, outl):
             if o == "ok safe":
                 nsafe += 1
-            elif o.startswith("ok wrap "):
-                wraps.setdefault(o[len("ok wrap "):], ln)
+            elif o.startswith("ok wrap ") or o.startswith("ok contract "):
+                wraps.setdefault(o[len("ok "):], ln)     # "wrap <field op line>" / "contract <field op line>"
             else:
                 out["broken"].append(("wrap-search", "driver jac.wrap", (ln[:200] + " -> " + o)[:400]))
                 break
@@ -117,18 +117,18 @@ def wrap_search(tier, seed, WORK, ROOT, REPO, GOENV):
     out["coverage"]["wrap_safe_runs"] = nsafe
     out["coverage"]["wrap_witnesses_in_model"] = len(wraps)
     if wraps:
-        exact_lines = ["field.exact " + w for w in wraps]
+        exact_lines = [("field.exact " + w[len("wrap "):]) if w.startswith("wrap ") else ("field.contract " + w[len("contract "):]) for w in wraps]
         p = subprocess.run([harness, "run"], input="\n".join(exact_lines) + "\n", stdout=subprocess.PIPE, text=True)
         impl = p.stdout.splitlines()
         confirmed = 0
         for w, r in zip(wraps, impl):
-            if r == "ok inexact":
+            if r in ("ok inexact", "ok violated"):
                 confirmed += 1
                 if confirmed <= 20:
-                    out["violations"].append({"kind": "impl-vs-spec", "op": "field.exact " + w, "class": "wrap", "impl": r, "model": "ok exact", "expected": "ok exact",
+                    out["violations"].append({"kind": "impl-vs-spec", "op": ("field.exact " + w[5:]) if w.startswith("wrap ") else ("field.contract " + w[9:]), "class": w.split(" ", 1)[0], "impl": r, "model": "ok exact / ok within", "expected": "ok exact / ok within",
                                               "reached_from": wraps[w][:3000],
                                               "note": "this field operation is performed by the formula on the input `reached_from`; on the real code its result differs from exact integer arithmetic (a 32/64-bit word overflowed or underflowed)"})
-            elif r != "ok exact":
+            elif r not in ("ok exact", "ok within"):
                 out["broken"].append(("wrap-search", "harness field.exact", (w[:200] + " -> " + r)[:400]))
         out["coverage"]["wrap_witnesses_confirmed_on_real_code"] = confirmed
         if confirmed == 0:
